@@ -43,11 +43,20 @@ Fixpoint firstN {A} (n : N) (l : list A) : list A :=
   | x :: l' => if n =? 0 then [] else x :: firstN (n - 1) l'
   end.
 
+(* truncate(first) / take(first) as the code calls them.  A Vec never holds more than
+   isize::MAX elements, so truncate(usize::MAX) (lookup_all_phrases) never drops
+   anything; the model's lists are unbounded, hence the explicit test. *)
+Definition truncate_usize {A} (first : N) (l : list A) : list A :=
+  if USIZE_MAX <=? first then l else firstN first l.
+
+(* the phrases in order of first appearance (specification of the de-duplicated order) *)
+Definition first_occurrences (l : list text) : list text :=
+  fold_left (fun acc x => if existsb (seq_eqb x) acc then acc else acc ++ [x]) l [].
+
 (* ---- the de-duplication loop (sort_map + phrases vector) ----
    Entry::Occupied: phrases[index] = cmp::max(&phrase, &phrases[index]).clone();
    Ord for Phrase compares freq, then the string (equal here); cmp::max returns its
-   second argument unless the first is strictly greater.
-   dedup_keep_larger = true is the code; false is only used by the self-test mutant. *)
+   second argument unless the first is strictly greater. *)
 Definition phrase_max (new old : phrase) : phrase :=
   if ph_freq old <? ph_freq new then new else old.
 
@@ -139,7 +148,7 @@ Fixpoint collect_leaves (first : N) (ls : list (list phrase)) (acc : list phrase
 Definition trie_lookup_gen (truncate : bool) (t : trie) (k : key) (first : N) (s : strategy) : list phrase :=
   let leaves := map snd (filter (fun kl => key_match s (fst kl) k) t) in
   let r := collect_leaves first leaves [] in
-  if truncate then firstN first r else r.
+  if truncate then truncate_usize first r else r.
 
 (* ---- TrieBuilder (insert + the per-leaf stable sort of write()) ---- *)
 Fixpoint leaf_put (ph : phrase) (l : list phrase) : list phrase :=
